@@ -488,13 +488,24 @@ func (e *Env) runRPC() error {
 	}
 	if len(dcs) > 0 {
 		e.Client.SetDCList(dcs)
+		// the map is the caller's: it goes on using it for something else (the list of another client, a cleared map)
+		for id := range dcs {
+			dcs[id] = "127.0.0.1:9"
+		}
+		dcs[8], dcs[9] = "127.0.0.1:9", "127.0.0.1:9"
 	}
 	// one registered handler, as the examples do: it takes updateShort, everything else goes to the warning channel
+	var second sync.Once
 	e.Client.AddCustomServerRequestHandler(func(i any) bool {
 		_, ok := i.(*telegram.UpdateShort)
 		if ok {
 			e.Srv.LogNote("handler-call", nil, 0, fmt.Sprintf("%T", i))
 		}
+		// an application installs its working handler when the first server message arrives: from inside the callback
+		second.Do(func() {
+			e.Client.AddCustomServerRequestHandler(func(any) bool { return false })
+			e.Srv.LogNote("handler-registered-from-handler", nil, 0, fmt.Sprintf("%T", i))
+		})
 		return ok
 	})
 	e.Connect(e.patience(), nil)
@@ -639,6 +650,13 @@ func (e *Env) runRPC() error {
 				}
 				e.Srv.LogNote("push", c, 0, step.Push.Kind)
 				c.WriteFrame(f)
+				continue
+			}
+			if step.Push.Kind == "redeliver" {
+				// the acknowledgement of the last content-related message got lost: the server sends the message again
+				if id := c.Redeliver(); id == 0 {
+					e.Res.Notes = append(e.Res.Notes, fmt.Sprintf("step %d: nothing to redeliver", i))
+				}
 				continue
 			}
 			if step.Push.Kind == "bad-msg-clock" {
@@ -958,6 +976,14 @@ func inspectStall(blockedCallers int) *Stall {
 		time.Sleep(2 * time.Second)
 		a2, c2, _ = look()
 	}
+	if a1 == "" && a2 == "" && c1 > 0 && c1 == c2 {
+		// no receive loop at all while callers wait: between two connections that lasts for the time of a dial; if it is
+		// still so after another second and a half, nobody will ever read an answer for them
+		time.Sleep(1500 * time.Millisecond)
+		if a3, c3, _ := look(); a3 == "" && c3 == c1 {
+			return &Stall{LoopAt: "no receive loop exists (the client has stopped reading) while callers wait", Blocked: c1, Verdict: "STALL"}
+		}
+	}
 	s := &Stall{LoopAt: a1, Blocked: c1, Dump: dump}
 	idle := func(a string) bool {
 		return strings.HasPrefix(a, "not-blocked") && (strings.Contains(a, "[select") || strings.Contains(a, "[IO wait") || strings.Contains(a, "[chan receive"))
@@ -1005,17 +1031,19 @@ func (e *Env) countCtor(ctor string) int {
 // unacked lists the content-related messages the servers sent that no received msgs_ack names yet.
 func (e *Env) unacked() []int64 {
 	evs := e.Hub.Snapshot()
-	acked := map[int64]bool{}
+	// every delivery wants an acknowledgement that arrives after it: a message delivered again after its first
+	// acknowledgement is acknowledged again
+	lastAck := map[int64]int{}
 	for _, ev := range evs {
 		if ev.Kind == "ack" {
 			for _, id := range ev.IDs {
-				acked[id] = true
+				lastAck[id] = ev.Seq
 			}
 		}
 	}
 	var out []int64
 	for _, ev := range evs {
-		if ev.Kind == "sent" && ev.SeqNo&1 == 1 && !acked[ev.MsgID] && ev.Note != "raw" {
+		if ev.Kind == "sent" && ev.SeqNo&1 == 1 && ev.Note != "raw" && lastAck[ev.MsgID] < ev.Seq {
 			out = append(out, ev.MsgID)
 		}
 	}
